@@ -26,6 +26,7 @@ int main()
   Obl o1{"restart.whole_in_order", "C14", "", "after a run in mode 'w' and a restart in mode 'a', the files - oldest first as the naming scheme orders them - hold whole statements in the order they were written"};
   Obl o1k{"restart.whole_in_order_dateandtime_limited", "C14", "dateandtime-restart-backup-count", "same, for the DateAndTime naming scheme with a finite max_backup_files (files of the previous run must count towards the limit and be the first to go)"};
   Obl o2{"restart.nothing_clobbered", "C14", "", "with unlimited backups every statement of both runs is still there: restarting in append mode continues the existing sequence instead of clobbering it"};
+  Obl o4{"restart.size_bound_across_restart", "C14", "", "no file exceeds rotation_max_file_size unless a single statement alone does - also the file a restart in append mode continues (its existing bytes count)"};
   Obl o3{"restart.unrelated_files_untouched", "C14", "", "files that are not part of the rotation sequence are neither removed nor modified"};
   using NS = quill::RotatingFileSinkConfig::RotationNamingScheme;
   NS const schemes[3] = {NS::Index, NS::Date, NS::DateAndTime}; char const* sname[3] = {"Index", "Date", "DateAndTime"};
@@ -89,6 +90,13 @@ int main()
         check((si == 2 && mb != 0xffffffffu) ? o1k : o1, suffix && whole, in + " files: " + listing);
         if (mb == 0xffffffffu) check(o2, suffix && first == 0, in + " files: " + listing);
         check(o3, unrelated_ok, in);
+        // size bound, where no rotation can have been refused (unlimited backups or overwriting allowed): the file of the previous run counts too
+        if (mb == 0xffffffffu || ow != 0)
+        {
+          bool within = true;
+          for (auto const& c : contents) { size_t nl = 0; for (char ch : c) nl += ch == '\n'; if (c.size() > LIMIT && nl != 1) within = false; }
+          check(o4, within, in + " files: " + listing);
+        }
       });
     });
   }
@@ -96,6 +104,6 @@ int main()
   printf("SPACE {Index, Date, DateAndTime} x max_backup_files in {unlimited, 2} x overwrite in {true, false} x every pair (run in mode 'w', restart in mode 'a') of sequences of 1..%d statements from {290, 700} bytes, limit 600, 8 unrelated files present (among them the files of a sink named r.debug.log), on real files\n", LEN);
   (void)n; printf("DISTINCT %ld\n", pairs);
   printf("SAMPLE Date backups=2 overwrite=1 run1=ab run2=ba\n");
-  report(o1); report(o1k); report(o2); report(o3);
-  return (o1.failed || o1k.failed || o2.failed || o3.failed) ? 1 : 0;
+  report(o1); report(o1k); report(o2); report(o3); report(o4);
+  return (o1.failed || o1k.failed || o2.failed || o3.failed || o4.failed) ? 1 : 0;
 }
